@@ -38,7 +38,13 @@ RULE = ("segment tables of 0..25 rows (classes autosome / X / Y / PAR-X / PAR-Y 
         "-y / --male-reference / --haploid-x-reference, --ploidy 2 and --show ploidy left to their defaults, the genome "
         "name in any case, -o or standard output, a second segment file before / after on export bed, -i alone / with "
         "--label-genes, --label-genes, vcf --cnr; every command-line table carries an X and a Y segment neutral for "
-        "exactly the case's sample sex. non-trivial = non-empty input; distinct by hash of the case")
+        "exactly the case's sample sex.  COMMAND-LINE GLUE handed to the model UNRESOLVED (ops cmd_export_bed / cmd_export_vcf, "
+        "Model/ExportExt.lean; 60 + 30 cases in the quick tier): 1..3 segment files per `export bed` (each with its own "
+        "columns and its own apparent sex), the sample sex left out or in each of the eight accepted spellings under each "
+        "option name -- in 40 % of the files the table looks like the OTHER sex, so the stated one must win, and with the "
+        "sex left out the files may disagree, so each must be treated with the sex inferred from IT --, -i LABEL / -i '' / "
+        "--label-genes / both / neither, --show in its three values or left out, --ploidy left out; the model is told "
+        "only what guess_xx infers per file. non-trivial = non-empty input; distinct by hash of the case")
 EXHAUSTIVE = {"quick": False, "thorough": False}
 ASSUMPTIONS = [
     "ratio space: the model receives the exact value of the double 2**log2; r*t in floats is covered by the knife-edge "
@@ -49,11 +55,16 @@ ASSUMPTIONS = [
     "negative counts yield no record at all -- run as a malformed stream, model mirrors it, spec not applied",
     "command line with the sample sex left out: the model is given the sex that guess_xx infers from the table as "
     "read (C15's subject); the tie then covers verify_sample_sex and the option plumbing",
+    "source tie (Generated/ExprsExport.lean): segments2vcf is read WITHOUT the confidence-limit columns (`\"ci_left\" in "
+    "segments` resolved to False); call.absolute_expect / absolute_clonal / absolute_dataframe and guess_xx are typed "
+    "parameters (C01's / C15's subjects) whose argument lists are checked textually; Python's float formatting inside the "
+    "INFO f-strings is a parameter",
     "vcf with confidence limits (cnarr / --cnr, or ci_left + ci_right columns): each record additionally carries "
     "CIPOS and CIEND after the seven modelled INFO keys; the adapter checks that they are there and drops them, their "
     "values are outside the property's text and the model",
 ]
-TRUSTED_EXTRA = ["pandas boolean-mask selection, Series.replace, concat, itertuples, to_csv as modelled in Model/Export.lean",
+TRUSTED_EXTRA = ["harness/exprtrans.py class RowFn: the ROW-wise reading of column-wise pandas code (rules at the top of the file)",
+                 "pandas boolean-mask selection, Series.replace, concat, itertuples, to_csv as modelled in Model/Export.lean",
                  "harness parsing of the VCF / BED / SEG / TSV text into fields (split on tab, ';', '=', ':')",
                  "tabio.read (tab format) on sorted finite input is the identity (checked per case by the adapter)",
                  "argparse: an option string reaches the command function as the attribute the parser declares"]
